@@ -78,6 +78,12 @@ KW = [
     ("NullStripped(GreedyBytes)", {}, "bytes3nz"), ("OffsettedEnd(-1, GreedyBytes)", {}, "bytes3"),
     ("Lazy(Bytes(this.n))", {"n": (0, 2)}, "bytes:n"),
     ("LazyStruct('a'/Bytes(this.n), 'b'/Byte)", {"n": (0, 2)}, "struct_ab:n"),
+    ("Lazy(Prefixed(Byte, Int16ub))", {}, "u16"), ("Lazy(Prefixed(Int16ul, Bytes(this.n)))", {"n": (0, 2)}, "bytes:n"),
+    ("Struct('a'/Lazy(Prefixed(Byte, Byte)), 'b'/Byte)", {}, "struct_bytebyte"), ("LazyStruct('a'/Prefixed(Byte, Byte), 'b'/Byte)", {}, "struct_bytebyte"),
+    ("LazyArray(this.n, Prefixed(Byte, Byte))", {"n": (0, 2)}, "list:n"), ("Lazy(Padded(this.n, Byte))", {"n": (1, 3)}, "byte"), ("Lazy(Aligned(this.m, Byte))", {"m": (2, 4)}, "byte"),
+    ("Prefixed(Byte, Int16ub)", {}, "u16"), ("Prefixed(Int16ub, Bytes(this.n), includelength=True)", {"n": (0, 2)}, "bytes:n"), ("PrefixedArray(Byte, Byte)", {}, "list2"),
+    ("Peek(Int16ub)", {}, "none"), ("Struct('kind'/Byte, 'next'/Peek(Int16ub), 'flag'/Byte)", {}, "struct_kf"), ("Sequence(Byte, Peek(Bytes(this._params.n)), Byte)", {"n": (0, 3)}, "seq_peek"),
+    ("Struct('a'/Byte, 'o'/Optional(Int16ub))", {}, "struct_a_only"), ("FocusedSeq('b', 'a'/Peek(Int32ub), 'b'/Byte)", {}, "byte"),
     ("Restreamed(Bytes(this.n), lambda b: b, 1, lambda b: b, 1, lambda n: n)", {"n": (0, 2)}, "bytes:n"),
     ("Transformed(Bytes(2), lambda b: b, 2, lambda b: b, 2)", {}, "bytes2"),
 ]
@@ -143,6 +149,16 @@ def _value(ctx, how, kw):
         return [ctx.bytes("v[0]", key(1)), ctx.int("v[1]", 0, 65535)]
     if k == "rawcopy":
         return dict(value=ctx.bytes("v", key(1)))
+    if k == "u16":
+        return ctx.int("v", 0, 65535)
+    if k == "struct_bytebyte":
+        return dict(a=ctx.int("v.a", 0, 255), b=ctx.int("v.b", 0, 255))
+    if k == "struct_kf":
+        return dict(kind=ctx.int("v.kind", 0, 255), next=None, flag=ctx.int("v.flag", 0, 255))
+    if k == "seq_peek":
+        return [ctx.int("v[0]", 0, 255), None, ctx.int("v[2]", 0, 255)]
+    if k == "struct_a_only":
+        return dict(a=ctx.int("v.a", 0, 255), o=None)
     if k == "union_a":
         return dict(a=ctx.int("v.a", 0, 255))
     raise ValueError(how)
@@ -227,7 +243,7 @@ def harness(ctx, C, p):
         return "unsized"
     n = r.value
     v = _value(ctx, p["how"], kw)
-    if any(t in p["source"] for t in ("GreedyBytes", "GreedyRange", "ProcessXor", "ProcessRotateLeft", "Pointer", "Peek", "Seek", "Select")):
+    if any(t in p["source"] for t in ("GreedyBytes", "GreedyRange", "ProcessXor", "ProcessRotateLeft", "Pointer", "Seek", "Select")) and "Peek" not in p["source"]:
         # reads to end of stream / moves the stream by design: only the build side is measured
         st = ctx.stream()
         rb = api.outcome(d.build_stream, v, st, **kw)
